@@ -10,19 +10,16 @@
 (* A hole is a string "$<sort><level>".  Sorts are TYPED (I int, B bool, S string, P *int,       *)
 (* L []int, ...) so that every derived file type-checks (domain of C14); levels are Go's          *)
 (* operator precedences, which makes the grammar the unambiguous stratified Go grammar.           *)
-(* Init = the start symbol; one action per class of production applied to the leftmost hole;      *)
+(* A FOCUS (FocusTab) selects the enabled production families, the size budget, the layout moves   *)
+(* and how the fragment is wrapped into a file; Init = a focus of the run and the start symbol;    *)
+(* one action per class of production applied to the leftmost hole;                                *)
 (* a size budget bounds the derivation; when no hole is left the tree is finished (Finish),       *)
 (* the layout phase may re-space it (one named action per kind of layout move), and every         *)
 (* finished state is exported as a CASE record.                                                   *)
 EXTENDS Naturals, Sequences, FiniteSets, TLC, VerifIO
 
-CONSTANTS Focus,        \* name of the focus (exported with each case)
-          Families,     \* set of enabled production families
-          Budget,       \* max total cost of the productions of one tree
-          LayoutMoves,  \* max number of layout moves applied to one finished tree
-          LayoutKinds,  \* subset of {"loosen","tighten","break","comment","linecomment","semi","oneline"}
-          Wrap,         \* "stmts" (fragment = body of a function) | "decls" (fragment = top-level declarations)
-          CheckInjective \* TRUE: the closure-based unambiguity theorem is evaluated (moderate bounds only)
+CONSTANTS Foci,      \* the foci enumerated by this run: names of FocusTab (one TLC run covers several foci: Init picks one)
+          InjFoci    \* the foci for which the closure-based unambiguity theorem is evaluated (moderate bounds only)
 
 G  == "><"     \* glue: no blank between the neighbours
 CG == "?<"     \* conditional glue after a unary operator, resolved by Resolve when the tree is complete
@@ -542,9 +539,54 @@ LitProds ==
   \cup {Prd("lit", "Top", 0, 1, Asg("=", Id("_"), Lit("IMAG", v)), <<"_", "=", v>>) : v \in LitC}
 
 AllProds == ExprProds \cup CtxProds \cup CondLitProds \cup StmtProds \cup DeclProds \cup LitProds
-EnabledProds == {p \in AllProds : p.fam \in Families}
-ProdsFor == TLCEval([h \in HoleNames |->
-   {p \in EnabledProds : Accepts(HoleInfo[h][1], p.sort) /\ p.lvl >= HoleInfo[h][2]}])
+
+(* The foci.  label: exported with each case; fams: enabled production families; budget: max total cost of the       *)
+(* productions of one tree; moves / kinds: layout moves applied to a finished tree; wrap: "stmts" (fragment = body   *)
+(* of a function) | "decls" (fragment = top-level declarations).                                                     *)
+Fo(label, fams, budget, mv, kinds, wrap) == [label |-> label, fams |-> fams, budget |-> budget, moves |-> mv, kinds |-> kinds, wrap |-> wrap]
+FExpr == {"leaf", "arith", "cmp", "logic", "unary", "paren", "call", "sel", "index", "slice", "assert", "complit", "funclit", "conv", "ctx"}
+FCore == {"leaf", "arith", "cmp", "logic", "unary", "paren", "ctx"}
+FStmtL == {"leaf", "top", "stmt", "assign", "incdec", "define", "if", "for", "range", "switch", "typeswitch", "select", "label", "defergo",
+           "return", "block", "declstmt", "send", "exprstmt", "branch"}
+FStmt == FStmtL \cup {"opassign", "empty"}
+FNest == {"leaf", "top", "stmt", "assign", "if", "for", "range", "switch", "select", "label", "branch", "return", "block", "send"}
+FDecl == {"leaf", "topd", "func", "method", "typedecl", "constdecl", "vardecl", "type"}
+FGen == {"leaf", "topd", "seqd", "generic", "typedecl", "func", "type"}
+KAll == {"loosen", "tighten", "break", "comment", "linecomment", "semi"}
+KExpr == {"loosen", "tighten", "break", "comment", "linecomment"}
+FocusNames == {"expr2", "stmt2", "oneline2", "laystmt1", "layexpr1", "decl2", "generic1", "lit1",
+               "exprcore3", "stmtnest3", "stmtseq2", "onelineseq2", "laystmt1x2", "layexpr2", "decl3", "laydecl2", "generic2", "lit2",
+               "exprsim4", "stmtsim5",
+               "rtdecl2", "rtgeneric1", "rtdecl3", "rtvalues3", "rtgeneric2"}
+FocusTab == TLCEval([f \in FocusNames |->
+   CASE f = "expr2"      -> Fo("expr", FExpr, 2, 0, {}, "stmts")
+     [] f = "stmt2"      -> Fo("stmt", FStmt, 2, 0, {}, "stmts")
+     [] f = "oneline2"   -> Fo("layout-oneline", FStmtL, 2, 1, {"oneline"}, "stmts")
+     [] f = "laystmt1"   -> Fo("layout-stmt", FStmtL, 1, 1, KAll, "stmts")
+     [] f = "layexpr1"   -> Fo("layout-expr", FExpr, 1, 1, KExpr, "stmts")
+     [] f = "decl2"      -> Fo("decl", FDecl, 2, 0, {}, "decls")
+     [] f = "generic1"   -> Fo("generic", {"leaf", "topd", "generic"}, 1, 0, {}, "decls")
+     [] f = "lit1"       -> Fo("lit", {"leaf", "ctx", "lit", "arith", "call"}, 1, 0, {}, "stmts")
+     [] f = "exprcore3"  -> Fo("expr-core", FCore, 3, 0, {}, "stmts")
+     [] f = "stmtnest3"  -> Fo("stmt-nest", FNest, 3, 0, {}, "stmts")
+     [] f = "stmtseq2"   -> Fo("stmt-seq", FStmt \cup {"seq"}, 2, 0, {}, "stmts")
+     [] f = "onelineseq2" -> Fo("layout-oneline", FStmtL \cup {"seq"}, 2, 1, {"oneline"}, "stmts")
+     [] f = "laystmt1x2" -> Fo("layout-stmt", FStmtL, 1, 2, KAll, "stmts")
+     [] f = "layexpr2"   -> Fo("layout-expr", FExpr \ {"funclit", "conv"}, 2, 1, {"loosen", "tighten", "break", "comment"}, "stmts")
+     [] f = "decl3"      -> Fo("decl", FDecl \cup {"seqd"}, 3, 0, {}, "decls")
+     [] f = "laydecl2"   -> Fo("layout-decl", FDecl, 2, 1, KAll \cup {"oneline"}, "decls")
+     [] f = "generic2"   -> Fo("generic", FGen, 2, 0, {}, "decls")
+     [] f = "lit2"       -> Fo("lit", {"leaf", "ctx", "lit", "arith", "call", "cmp", "unary", "paren"}, 2, 0, {}, "stmts")
+     [] f = "exprsim4"   -> Fo("expr-sim", FExpr, 4, 0, {}, "stmts")
+     [] f = "stmtsim5"   -> Fo("stmt-sim", FStmt \cup {"seq", "arith", "cmp", "logic", "unary", "call", "index", "sel"}, 5, 0, {}, "stmts")
+     [] f = "rtdecl2"    -> Fo("decl", FDecl \cup {"funclit", "complit"}, 2, 0, {}, "decls")
+     [] f = "rtgeneric1" -> Fo("generic", {"leaf", "topd", "generic"}, 1, 0, {}, "decls")
+     [] f = "rtdecl3"    -> Fo("decl", FDecl \cup {"seqd"}, 3, 0, {}, "decls")
+     [] f = "rtvalues3"  -> Fo("decl-values", FDecl \cup {"funclit", "complit", "call", "arith", "unary", "conv", "sel", "index"}, 3, 0, {}, "decls")
+     [] f = "rtgeneric2" -> Fo("generic", FGen, 2, 0, {}, "decls")])
+ASSUME Foci \subseteq FocusNames /\ InjFoci \subseteq Foci
+ProdsFor == TLCEval([f \in Foci |-> [h \in HoleNames |->
+   {p \in AllProds : p.fam \in FocusTab[f].fams /\ Accepts(HoleInfo[h][1], p.sort) /\ p.lvl >= HoleInfo[h][2]}]])
 
 -----------------------------------------------------------------------------
 (* Position-dependent names: a leaf takes the identifier of its sort selected by the position of  *)
@@ -566,8 +608,8 @@ Subst(seq, i) == [k \in 1..Len(seq) |->
 
 -----------------------------------------------------------------------------
 (* The derivation machine *)
-VARIABLES sx, tk, used, phase, lay, moves, lastpos
-vars == <<sx, tk, used, phase, lay, moves, lastpos>>
+VARIABLES foc, sx, tk, used, phase, lay, moves, lastpos
+vars == <<foc, sx, tk, used, phase, lay, moves, lastpos>>
 
 Min(S) == CHOOSE i \in S : \A j \in S : i <= j
 FirstHole(seq) == LET hs == {i \in 1..Len(seq) : IsHole(seq[i])} IN IF hs = {} THEN 0 ELSE Min(hs)
@@ -577,14 +619,15 @@ Holes(seq) == SelectSeq(seq, IsHole)
 \* all successors of a derivation state [sx, tk, used]: every applicable production at the leftmost hole
 Apply(s, p, i, j) ==
   [sx |-> Splice(s.sx, j, Subst(p.sx, i)), tk |-> Splice(s.tk, i, Subst(p.tk, i)), used |-> s.used + p.cost]
-Usable(s, i) == {q \in ProdsFor[s.tk[i]] : s.used + q.cost <= Budget}
-DeriveSucc(s) ==
+Usable(f, s, i) == {q \in ProdsFor[f][s.tk[i]] : s.used + q.cost <= FocusTab[f].budget}
+DeriveSucc(f, s) ==
   LET i == FirstHole(s.tk) j == FirstHole(s.sx) IN
-  IF i = 0 THEN {} ELSE {Apply(s, p, i, j) : p \in Usable(s, i)}
+  IF i = 0 THEN {} ELSE {Apply(s, p, i, j) : p \in Usable(f, s, i)}
 
 Start == [sx |-> <<H("Top", 0)>>, tk |-> <<H("Top", 0)>>, used |-> 0]
 
-Init == /\ sx = Start.sx /\ tk = Start.tk /\ used = 0
+Init == /\ foc \in Foci
+        /\ sx = Start.sx /\ tk = Start.tk /\ used = 0
         /\ phase = "derive" /\ lay = <<>> /\ moves = 0 /\ lastpos = 0
 
 HoleClass == LET i == FirstHole(tk) IN
@@ -595,10 +638,10 @@ HoleClass == LET i == FirstHole(tk) IN
         ELSE IF s \in {"Ty"} THEN "type" ELSE "decl"
 Step == LET cur == [sx |-> sx, tk |-> tk, used |-> used]
             i == FirstHole(tk)  j == FirstHole(sx) IN
-        \E p \in Usable(cur, i) :
+        \E p \in Usable(foc, cur, i) :
            LET t == Apply(cur, p, i, j) IN
            /\ sx' = t.sx /\ tk' = t.tk /\ used' = t.used
-           /\ UNCHANGED <<phase, lay, moves, lastpos>>
+           /\ UNCHANGED <<foc, phase, lay, moves, lastpos>>
 ExpandExpr == phase = "derive" /\ HoleClass = "expr" /\ Step   \* parser.go: parseBinaryExpr/parseUnaryExpr/parsePrimaryExpr/parseOperand
 ExpandStmt == phase = "derive" /\ HoleClass = "stmt" /\ Step   \* parser.go: parseStmt, parseSimpleStmtEx, parseIfStmt, parseForStmt, ...
 ExpandType == phase = "derive" /\ HoleClass = "type" /\ Step   \* parser.go: tryIdentOrType
@@ -621,7 +664,7 @@ Tokens(seq) == Alt(Resolve(seq), 1, "")
 
 Finish == /\ phase = "derive" /\ FirstHole(tk) = 0
           /\ phase' = "layout" /\ lay' = Tokens(tk)
-          /\ UNCHANGED <<sx, tk, used, moves, lastpos>>
+          /\ UNCHANGED <<foc, sx, tk, used, moves, lastpos>>
 
 -----------------------------------------------------------------------------
 (* Layout moves: each changes ONE gap (or the gaps of one block) of a finished tree and leaves   *)
@@ -640,8 +683,8 @@ GlueSafe(a, b) == \/ a \in Punct \/ b \in Punct
                   \/ (a \in Ops /\ a # "." /\ IsWord(b))
 GapPos == {j \in 1..Len(lay) : j % 2 = 0}
 SetGap(j, g) == /\ lay' = [lay EXCEPT ![j] = g] /\ moves' = moves + 1 /\ lastpos' = j
-                /\ UNCHANGED <<sx, tk, used, phase>>
-CanMove(kind) == phase = "layout" /\ moves < LayoutMoves /\ kind \in LayoutKinds
+                /\ UNCHANGED <<foc, sx, tk, used, phase>>
+CanMove(kind) == phase = "layout" /\ moves < FocusTab[foc].moves /\ kind \in FocusTab[foc].kinds
 Loosen  == CanMove("loosen")  /\ \E j \in GapPos : j > lastpos /\ lay[j] = G /\ SetGap(j, BL)
 Tighten == CanMove("tighten") /\ \E j \in GapPos : j > lastpos /\ lay[j] = BL /\ GlueSafe(lay[j - 1], lay[j + 1]) /\ SetGap(j, G)
 Break   == CanMove("break")   /\ \E j \in GapPos : j > lastpos /\ lay[j] \in {G, BL} /\ ~SemiAfter(lay[j - 1]) /\ SetGap(j, NL)
@@ -658,7 +701,7 @@ OneLine == CanMove("oneline") /\ \E j \in GapPos : j > lastpos /\ lay[j] = NL /\
                    IF k % 2 = 0 /\ k >= j /\ k < e /\ lay[k] = NL
                    THEN (IF ~SemiAfter(lay[k - 1]) \/ lay[k + 1] = "}" THEN BL ELSE "<;>")
                    ELSE lay[k]]
-             /\ moves' = moves + 1 /\ lastpos' = j /\ UNCHANGED <<sx, tk, used, phase>>
+             /\ moves' = moves + 1 /\ lastpos' = j /\ UNCHANGED <<foc, sx, tk, used, phase>>
 LayoutStep == Loosen \/ Tighten \/ Break \/ Comment \/ LineComment \/ Semi \/ OneLine
 
 Next == ExpandExpr \/ ExpandStmt \/ ExpandType \/ ExpandDecl \/ Finish \/ LayoutStep
@@ -668,7 +711,7 @@ Spec == Init /\ [][Next]_vars
 (* What TLC checks on the model *)
 Toks(l) == [k \in 1..((Len(l) + 1) \div 2) |-> l[2 * k - 1]]
 SyncHoles == phase = "derive" => Holes(sx) = Holes(tk)       \* the two sentential forms are rewritten in lock step
-WithinBudget == used <= Budget /\ moves <= LayoutMoves
+WithinBudget == used <= FocusTab[foc].budget /\ moves <= FocusTab[foc].moves
 ExportedComplete == phase = "layout" =>
    /\ FirstHole(sx) = 0 /\ FirstHole(tk) = 0
    /\ (Len(lay) % 2 = 1 \/ lay = <<>>)
@@ -678,15 +721,14 @@ ExportedComplete == phase = "layout" =>
 LayoutStutters == [][phase = "layout" /\ phase' = "layout" => sx' = sx /\ Toks(lay') = Toks(lay)]_vars
 
 \* unambiguity of the focus: Tokens is injective on the finished trees (closure of the same successor relation)
-RECURSIVE Closure(_, _)
-Closure(front, acc) == IF front = {} THEN acc
-   ELSE Closure(UNION {DeriveSucc(s) : s \in front}, acc \cup {s \in front : FirstHole(s.tk) = 0})
-\* (parameterised so that TLC does not pre-evaluate the closure when the check is switched off)
-Finished(st) == Closure({st}, {})
+RECURSIVE Closure(_, _, _)
+Closure(f, front, acc) == IF front = {} THEN acc
+   ELSE Closure(f, UNION {DeriveSucc(f, s) : s \in front}, acc \cup {s \in front : FirstHole(s.tk) = 0})
+Finished(f) == Closure(f, {Start}, {})
 \* (on the bare token sequence: spacing must not be needed to tell two trees apart)
-Unambiguous(st) == LET F == Finished(st) IN Cardinality({Toks(Tokens(s.tk)) : s \in F}) = Cardinality({s.sx : s \in F})
-ASSUME CheckInjective => Unambiguous(Start)
+Unambiguous(f) == LET F == Finished(f) IN Cardinality({Toks(Tokens(s.tk)) : s \in F}) = Cardinality({s.sx : s \in F})
+ASSUME \A f \in InjFoci : Unambiguous(f)
 
 Export == phase = "layout" =>
-   Emit([focus |-> Focus, wrap |-> Wrap, sx |-> sx, text |-> lay, moves |-> moves, cost |-> used])
+   Emit([focus |-> FocusTab[foc].label, wrap |-> FocusTab[foc].wrap, sx |-> sx, text |-> lay, moves |-> moves, cost |-> used])
 =============================================================================
